@@ -6,7 +6,6 @@
 package c03
 
 import (
-	"encoding/json"
 	"fmt"
 	"sort"
 	"time"
@@ -69,6 +68,18 @@ func Exec(n *e2e.Node, ops []hx.T) (obs any, nontrivial bool, xtags []string, er
 		return ids
 	}
 	mid := uint64(100)
+	// the client serializer is a configuration of the whole case
+	proto := false
+	for _, o := range ops {
+		if o.Name == "OProto" {
+			proto = true
+		}
+	}
+	if proto {
+		n.SetProto(true)
+		xtags = append(xtags, "serializer-proto")
+		defer n.SetProto(false)
+	}
 	for _, o := range ops {
 		switch o.Name {
 		case "OConn":
@@ -86,6 +97,7 @@ func Exec(n *e2e.Node, ops []hx.T) (obs any, nontrivial bool, xtags []string, er
 			cl.SetSlowRead(time.Duration(o.Int(1)) * time.Microsecond)
 			conns[id] = &conn{id: id, cl: cl}
 			order = append(order, id)
+		case "OProto":
 		case "OStall":
 			c := conns[o.Int(0)]
 			if c == nil {
@@ -108,8 +120,12 @@ func Exec(n *e2e.Node, ops []hx.T) (obs any, nontrivial bool, xtags []string, er
 				continue
 			}
 			mid++
-			pl, _ := json.Marshal(map[string]any{"T": -1, "Key": keyName(o.Int(1))})
-			if e := c.cl.Request(mid, "gate.h.setkey", pl); e != nil {
+			pl := e2e.EncodeArg(proto, map[string]any{"T": -1, "Key": keyName(o.Int(1))})
+			route := "gate.h.setkey"
+			if proto {
+				route = "gate.h.psetkey"
+			}
+			if e := c.cl.Request(mid, route, pl); e != nil {
 				return nil, false, nil, e
 			}
 			if c.cl.WaitResponse(mid, e2e.WaitTimeout*4) == nil {
@@ -125,9 +141,13 @@ func Exec(n *e2e.Node, ops []hx.T) (obs any, nontrivial bool, xtags []string, er
 				ty = "ghost"
 			}
 			mid++
-			pl, _ := json.Marshal(map[string]any{"T": o.Int(4), "N1": o.Int(2), "N2": o.Int(3), "Pads": o.Ints(5),
+			pl := e2e.EncodeArg(proto, map[string]any{"T": o.Int(4), "N1": o.Int(2), "N2": o.Int(3), "Pads": o.Ints(5),
 				"RPad": o.Int(6), "Mode": o.Int(7), "Ids": netIds(o.Ints(8))})
-			if e := c.cl.Request(mid, ty+".h.send", pl); e != nil {
+			method := ".h.send"
+			if proto {
+				method = ".h.psend"
+			}
+			if e := c.cl.Request(mid, ty+method, pl); e != nil {
 				return nil, false, nil, e
 			}
 		default:
@@ -159,10 +179,15 @@ func Exec(n *e2e.Node, ops []hx.T) (obs any, nontrivial bool, xtags []string, er
 		}
 		for _, ev := range conns[id].cl.Events() {
 			if ev.Push {
-				var b e2e.PushBody
-				if ev.Route != "onSeq" || json.Unmarshal(ev.Data, &b) != nil {
+				b, empty, ok := e2e.DecodePush(proto, ev.Data)
+				if ev.Route != "onSeq" || !ok {
 					flush()
 					evs = append(evs, "EOther")
+					continue
+				}
+				if empty {
+					flush()
+					evs = append(evs, "EEmpty")
 					continue
 				}
 				inst := e2e.InstOf(b.Svc)
@@ -181,13 +206,13 @@ func Exec(n *e2e.Node, ops []hx.T) (obs any, nontrivial bool, xtags []string, er
 				continue
 			}
 			flush()
-			var r e2e.Reply
+			r, rok := e2e.DecodeReply(proto, ev.Data)
 			switch {
 			case ev.Err:
 				evs = append(evs, "EErr")
-			case json.Unmarshal(ev.Data, &r) == nil && r.Kind == "sent":
+			case rok && r.Kind == "sent":
 				evs = append(evs, hx.C("EResp", e2e.InstOf(r.Svc), r.T, r.Ctr, len(r.Pad)))
-			case json.Unmarshal(ev.Data, &r) == nil && r.Kind == "echo" && r.T == -1:
+			case rok && r.Kind == "echo" && r.T == -1:
 				// answer of a routing-key request: not part of the observation
 			default:
 				evs = append(evs, "EOther")
